@@ -728,6 +728,111 @@ class LambdaInline(ast.NodeTransformer):
     visit_AsyncFunctionDef = visit_FunctionDef
 
 
+def keywords_to_positional(tree):
+    """calls of functions of the same module / methods of the same class (`self.m(..)`): keyword arguments that continue the
+    positional arguments in parameter order are written positionally (`f(a, y=b)` with `def f(x, y)` -> `f(a, b)`); the order of
+    evaluation does not change.  One spelling of a call, whichever the author preferred."""
+    counts = {}
+    for st in ast.walk(tree):
+        if isinstance(st, (ast.FunctionDef, ast.AsyncFunctionDef)):
+            counts[st.name] = counts.get(st.name, 0) + 1
+
+    def plain(f):
+        a = f.args
+        return not (a.vararg or a.posonlyargs or f.decorator_list)
+    mod_sigs = {st.name: [x.arg for x in st.args.args] for st in tree.body
+                if isinstance(st, ast.FunctionDef) and plain(st) and counts.get(st.name) == 1}
+
+    class T(ast.NodeTransformer):
+        def __init__(self, meth_sigs):
+            self.meth = meth_sigs
+
+        def visit_ClassDef(self, node):
+            ms = {m.name: [x.arg for x in m.args.args[1:]] for m in node.body
+                  if isinstance(m, ast.FunctionDef) and plain(m) and m.args.args and m.args.args[0].arg == 'self' and counts.get(m.name) == 1}
+            inner = T(ms)
+            node.body = [inner.visit(s_) for s_ in node.body]
+            return node
+
+        def visit_Call(self, node):
+            self.generic_visit(node)
+            f = node.func
+            params = None
+            if isinstance(f, ast.Name):
+                params = mod_sigs.get(f.id)
+            elif isinstance(f, ast.Attribute) and isinstance(f.value, ast.Name) and f.value.id == 'self':
+                params = self.meth.get(f.attr)
+            if not params or not node.keywords or any(isinstance(a, ast.Starred) for a in node.args):
+                return node
+            k = len(node.args)
+            moved = 0
+            for kw in node.keywords:
+                if kw.arg is not None and k + moved < len(params) and kw.arg == params[k + moved]:
+                    moved += 1
+                else:
+                    break
+            if moved:
+                node.args = list(node.args) + [kw.value for kw in node.keywords[:moved]]
+                node.keywords = node.keywords[moved:]
+            return node
+    return T({}).visit(tree)
+
+
+def inline_new_constants(tree, rel):
+    """module level `NAME = <literal>` that the reference tree does not have (a magic number that was given a name): the literal is
+    written back at its uses inside the module's functions (the definition stays).  Names of the reference tree are left alone: the
+    rules know them (or evaluate them)."""
+    from .inline import load_known
+    known = load_known()
+    count = {}
+    for st in tree.body:
+        if isinstance(st, (ast.Assign, ast.AugAssign, ast.AnnAssign)):
+            for t in (st.targets if isinstance(st, ast.Assign) else [st.target]):
+                for x in ast.walk(t):
+                    if isinstance(x, ast.Name):
+                        count[x.id] = count.get(x.id, 0) + 1
+    for n in ast.walk(tree):
+        if isinstance(n, ast.Global):
+            for nm in n.names:
+                count[nm] = count.get(nm, 0) + 5
+    consts = {}
+    for st in tree.body:
+        if isinstance(st, ast.Assign) and len(st.targets) == 1 and isinstance(st.targets[0], ast.Name) and isinstance(st.value, ast.Constant) and \
+                isinstance(st.value.value, (int, float, str, bytes)) and count.get(st.targets[0].id) == 1 and \
+                '%s:=%s' % (rel, st.targets[0].id) not in known:
+            consts[st.targets[0].id] = st.value
+    if not consts:
+        return tree
+
+    class T(ast.NodeTransformer):
+        def __init__(self, shadow):
+            self.shadow = shadow
+
+        def visit_Name(self, n):
+            if isinstance(n.ctx, ast.Load) and n.id in consts and n.id not in self.shadow:
+                return ast.copy_location(ast.Constant(value=consts[n.id].value), n)
+            return n
+
+        def _fn(self, n):
+            bound = {a.arg for a in ast.walk(n.args) if isinstance(a, ast.arg)}
+            if not isinstance(n, ast.Lambda):
+                bound |= {x.id for x in ast.walk(n) if isinstance(x, ast.Name) and isinstance(x.ctx, (ast.Store, ast.Del))}
+            inner = T(self.shadow | bound)
+            if isinstance(n, ast.Lambda):
+                n.body = inner.visit(n.body)
+            else:
+                n.body = [inner.visit(s_) for s_ in n.body]
+                n.args.defaults = [self.visit(d) for d in n.args.defaults]
+            return n
+
+        visit_FunctionDef = visit_AsyncFunctionDef = visit_Lambda = _fn
+
+    for st in tree.body:
+        if isinstance(st, (ast.FunctionDef, ast.AsyncFunctionDef, ast.ClassDef)):
+            T(set()).visit(st)
+    return tree
+
+
 def simplify_tree(tree):
     """apply the normal forms to a module tree (in place) -> tree"""
     from .model import _InlineTemps
@@ -745,6 +850,7 @@ def simplify_tree(tree):
                         bound_in_fns.add(n.id)
     consts = {k: v for k, v in consts.items() if k.lstrip('.') not in bound_in_fns or k.startswith('.')}
     tree = TableUnroll(consts).visit(tree)
+    tree = keywords_to_positional(tree)
     tree = LambdaInline().visit(tree)
     tree = AliasInline().visit(tree)
     tree = ToAug().visit(tree)
